@@ -65,6 +65,19 @@ var traceUnwind = os.Getenv("GOSYM_TRACE") != ""
 var unwindCount int
 var redirects = map[string]string{}
 var callDepth int
+
+// symIntrinsics replace a function's real body only when an argument is symbolic.
+var symIntrinsics = map[string]externalFn{}
+
+func anySym(args []value) bool {
+	for _, a := range args {
+		switch a.(type) {
+		case symv, symstr:
+			return true
+		}
+	}
+	return false
+}
 var lenientInit bool
 var initSkipped []string
 
@@ -591,6 +604,9 @@ func callSSA(i *interpreter, caller *frame, callpos token.Pos, fn *ssa.Function,
 	}
 	if fn.Parent() == nil {
 		name := fn.String()
+		if si := symIntrinsics[name]; si != nil && anySym(args) {
+			return si(fr, args)
+		}
 		ext := externals[name]
 		if ext == nil {
 			if i := strings.LastIndex(name, "."); i >= 0 {
